@@ -1,1 +1,213 @@
-From Average Require Import AccModel Window.
+(* Properties_C10.v -- C10 "Frame averaging emits the exact mean of each window of consecutive frames"
+   (filter level: arithmetic + window bookkeeping of filter.c; the whole-runtime part, C10_reaches_storage under
+   thread schedules, is built on top of this family by the pipeline family).
+
+   Only statements, closed by `exact`, their Print Assumptions, and Examples showing that the hypotheses are met
+   by reachable, non-trivial inputs.  The model is the code with fixes 01 (accumulator cleared) and 02 (flush
+   until drained) applied.
+
+   Notation:  round32 x = round radix2 (FLT_exp (-149) 24) ZnearestE x   (binary32, round to nearest even);
+              B2R 24 128 x = the real value of the binary32 number x;  column j frames = pixel j of every frame. *)
+From Coq Require Import ZArith Reals List Bool Lia Lra.
+From Flocq Require Import Core BinarySingleNaN Binary Bits.
+From Average Require Import AccModel Window AccProofs WindowProofs C10Proofs C10Examples.
+Import ListNotations.
+Open Scope Z_scope.
+
+(* ---------------------------------------------------------------------------------------------------------
+   C10_sum_exact.  The accumulator starts at +0 (`repeat f32_zero n`: what fix 01 establishes) and k frames
+   whose pixel values are bounded by M with k*M < 2^24 are added: pixel i of the accumulator then IS the
+   float of the integer sum S -- the same bit pattern as (float)S, real value exactly S, finite; every one of
+   the k binary32 additions was exact.
+   PARTIAL with respect to the property's quantifier: k*M >= 2^24 (u16 data with k > 256) is outside. *)
+Theorem C10_sum_exact :
+  forall (frames : list (list Z)) (M : Z) (n i : nat),
+    bounded_by M frames ->
+    Forall (fun f => (i < length f)%nat) frames ->
+    (i < n)%nat ->
+    Z.of_nat (length frames) * M < 2 ^ 24 ->
+    let acc := acc_frames (repeat f32_zero n) frames in
+    let S := zsum (column i frames) in
+    nth i acc f32_zero = f32_of_Z S /\
+    B2R 24 128 (nth i acc f32_zero) = IZR S /\
+    is_finite 24 128 (nth i acc f32_zero) = true /\
+    Z.abs S < 2 ^ 24.
+Proof. exact sum_exact_frames. Qed.
+Print Assumptions C10_sum_exact.
+
+(* the bound M of each sample type: what accumulate() reads out of the pixel bytes is bounded by maxval
+   (255, 65535 for u16 and for the 16-bit containers of u10/u12/u14, 128 for i8, 32768 for i16) *)
+Theorem C10_decode_bound :
+  forall (t : stype) (bs : list Z), Forall is_byte bs -> Forall (fun v => Z.abs v <= maxval t) (decode t bs).
+Proof. exact decode_bound. Qed.
+Print Assumptions C10_decode_bound.
+
+(* ---------------------------------------------------------------------------------------------------------
+   C10_mean_value.  What the filter emits for pixel i of a complete window of k frames (same hypotheses):
+     (1) out = round32 (S * round32 (1/k))      -- this is "the float mean" of the property, as computed
+     (2) finite
+     (3) = S/k exactly when k is a power of two
+     (4) | out - S/k | <= |S/k| * (2^-23 + 2^-48) for every k      (two roundings, each within 2^-24)
+   NOT provable, because false: | out - S/k | <= ulp (S/k)  (DESIGN 6.10 expected it) -- see
+   one_ulp_bound_refuted below (k = 7, S = 3: 1.14 ulp); (4) gives < 2.0000002 ulp, the worst case found
+   by exhaustive search for k <= 300 is 1.49 ulp. *)
+Theorem C10_mean_value :
+  forall (frames : list (list Z)) (M : Z) (n i : nat),
+    bounded_by M frames ->
+    Forall (fun f => (i < length f)%nat) frames ->
+    (i < n)%nat ->
+    frames <> [] ->
+    1 <= M ->
+    Z.of_nat (length frames) * M < 2 ^ 24 ->
+    let k := Z.of_nat (length frames) in
+    let out := nth i (window_mean (repeat f32_zero n) frames) f32_zero in
+    let S := zsum (column i frames) in
+    B2R 24 128 out = round32 (IZR S * round32 (1 / IZR k)) /\
+    is_finite 24 128 out = true /\
+    (forall j, 0 <= j -> k = 2 ^ j -> B2R 24 128 out = (IZR S / IZR k)%R) /\
+    (Rabs (B2R 24 128 out - IZR S / IZR k) <= Rabs (IZR S / IZR k) * (bpow radix2 (-23) + bpow radix2 (-48)))%R.
+Proof. exact mean_value_frames. Qed.
+Print Assumptions C10_mean_value.
+
+(* ---------------------------------------------------------------------------------------------------------
+   C10_windows.  The filter thread (run_thread: any number of process_data calls, then Finalize) on ANY
+   packetisation `steps` of N frames of one shape `sh` with an integer sample type, window k >= 2, an output ring
+   the accumulator fits in, no reset signal:
+     - returns 0, one result per call;
+     - what the sink's ring receives, in order, is spec_outputs k fs -- a function of the frames alone, so it
+       does not depend on the packet boundaries;
+     - that is N/k frames, plus one exactly when N mod k <> 0;
+     - output i < N/k belongs to window i = frames [i*k, (i+1)*k): it carries the frame_id of frame i*k, the
+       input's dims and strides with sample type f32, bytes_of_frame = align8 (96 + 4*npx), and as pixels the
+       window mean started from +0;
+     - the windows followed by the remainder are exactly the input (nothing skipped, nothing counted twice);
+       the remainder has N mod k < k frames. *)
+Theorem C10_windows :
+  forall (e : env) (sh : shape) (steps : list (list frame * bool)) (fs : list frame),
+    2 <= e_k e ->
+    acc_bytes sh < e_outcap e ->
+    is_integer_type (stype_of_code (ty sh)) = true ->
+    Forall (fun fr => f_shape fr = sh) fs ->
+    Forall (fun s => snd s = false) steps ->
+    concat (map fst steps) = fs ->
+    let k := Z.to_nat (e_k e) in
+    let N := length fs in
+    exists outs fin,
+      run_thread e steps = (outs, fin, 0) /\
+      length outs = length steps /\
+      concat outs ++ fin = spec_outputs k fs /\
+      length (spec_outputs k fs) = (N / k + (if (N mod k =? 0)%nat then 0 else 1))%nat /\
+      (forall i, (i < N / k)%nat ->
+         let w := window k i fs in
+         let o := nth i (spec_outputs k fs) dummy_oframe in
+         length w = k /\
+         (forall j, (j < k)%nat -> nth j w dummy_frame = nth (i * k + j) fs dummy_frame) /\
+         o_id o = f_id (nth (i * k) fs dummy_frame) /\
+         o_shape o = set_type sh code_f32 /\
+         o_bytes o = acc_bytes sh /\
+         o_px o = window_mean (repeat f32_zero (Z.to_nat (npx sh))) (map frame_values w)) /\
+      concat (map (fun i => window k i fs) (seq 0 (N / k))) ++ remainder k fs = fs /\
+      length (remainder k fs) = (N mod k)%nat.
+Proof. exact windows_full. Qed.
+Print Assumptions C10_windows.
+
+(* ---------------------------------------------------------------------------------------------------------
+   C10_filter_emits_means.  Both parts together, from a run of the filter thread to real numbers: pixel j of the
+   i-th frame the sink receives is round32 (S * round32 (1/k)) for the exact integer sum S of pixel j over the
+   frames [i*k, (i+1)*k), whatever the packetisation and whatever the ring memory held before (e_dirty e). *)
+Theorem C10_filter_emits_means :
+  forall (e : env) (sh : shape) (steps : list (list frame * bool)) (fs : list frame),
+    2 <= e_k e ->
+    acc_bytes sh < e_outcap e ->
+    is_integer_type (stype_of_code (ty sh)) = true ->
+    Forall (fun fr => f_shape fr = sh) fs ->
+    Forall (fun fr => Forall is_byte (f_data fr)) fs ->
+    Forall (fun fr => length (frame_values fr) = Z.to_nat (npx sh)) fs ->
+    e_k e * maxval (stype_of_code (ty sh)) < 2 ^ 24 ->
+    Forall (fun s => snd s = false) steps ->
+    concat (map fst steps) = fs ->
+    let k := Z.to_nat (e_k e) in
+    forall i j, (i < length fs / k)%nat -> (j < Z.to_nat (npx sh))%nat ->
+      let out := nth j (o_px (nth i (run_outputs e steps) dummy_oframe)) f32_zero in
+      let S := zsum (column j (map frame_values (window k i fs))) in
+      Z.abs S < 2 ^ 24 /\
+      B2R 24 128 out = round32 (IZR S * round32 (1 / IZR (e_k e))) /\
+      is_finite 24 128 out = true /\
+      (forall p, 0 <= p -> e_k e = 2 ^ p -> B2R 24 128 out = (IZR S / IZR (e_k e))%R) /\
+      (Rabs (B2R 24 128 out - IZR S / IZR (e_k e)) <=
+       Rabs (IZR S / IZR (e_k e)) * (bpow radix2 (-23) + bpow radix2 (-48)))%R.
+Proof. exact filter_emits_means. Qed.
+Print Assumptions C10_filter_emits_means.
+
+(* ---------------------------------------------------------------------------------------------------------
+   Non-vacuity: a concrete acquisition that meets every hypothesis above and is not trivial -- u8 frames of
+   2 pixels, window 2, five frames (two complete windows and a trailing frame), four packets of sizes 1,3,0,1,
+   an output ring of 1 KiB whose memory held 0x3f3f3f3f everywhere. *)
+Example windows_hypotheses_met :
+  2 <= e_k ex_env /\
+  acc_bytes ex_sh < e_outcap ex_env /\
+  is_integer_type (stype_of_code (ty ex_sh)) = true /\
+  Forall (fun fr => f_shape fr = ex_sh) ex_fs /\
+  Forall (fun fr => Forall is_byte (f_data fr)) ex_fs /\
+  Forall (fun fr => length (frame_values fr) = Z.to_nat (npx ex_sh)) ex_fs /\
+  e_k ex_env * maxval (stype_of_code (ty ex_sh)) < 2 ^ 24 /\
+  Forall (fun s => snd s = false) ex_steps /\
+  concat (map fst ex_steps) = ex_fs /\
+  (length ex_fs mod Z.to_nat (e_k ex_env) <> 0)%nat /\
+  (1 < length ex_fs / Z.to_nat (e_k ex_env))%nat.
+Proof.
+  split; [simpl; lia|].
+  split; [reflexivity|].
+  split; [reflexivity|].
+  split; [repeat constructor|].
+  split; [unfold is_byte; repeat (constructor; try lia)|].
+  split; [repeat constructor|].
+  split; [simpl; lia|].
+  split; [repeat constructor|].
+  split; [reflexivity|].
+  split; simpl; lia.
+Qed.
+
+Example windows_example_run :
+  map (fun o => (o_id o, o_bytes o, ty (o_shape o), map f32_bits (o_px o))) (run_outputs ex_env ex_steps) =
+  [(7, 104, 4, [1097859072; 1132396544]);     (* frames 7,8:  15.0, 255.0 *)
+   (9, 104, 4, [1069547520; 0]);              (* frames 9,10:  1.5,   0.0 *)
+   (11, 104, 4, [1077936128; 1082130432])]    (* trailing frame 11: the sums 3.0, 4.0 *)
+  /\ map obs (run_outputs ex_env ex_steps) = map obs (run_outputs ex_env [(ex_fs, false)])
+  /\ map obs (run_outputs ex_env ex_steps) = map obs (spec_outputs 2 ex_fs).
+Proof. vm_compute. repeat split; reflexivity. Qed.
+
+Example sum_exact_hypotheses_met :
+  let frames := map frame_values (window 2 0 ex_fs) in
+  bounded_by 255 frames /\ Forall (fun f => (1 < length f)%nat) frames /\ (1 < 2)%nat /\ frames <> [] /\
+  Z.of_nat (length frames) * 255 < 2 ^ 24 /\
+  zsum (column 1 frames) = 510 /\
+  f32_bits (nth 1 (acc_frames (repeat f32_zero 2) frames) f32_zero) = 1140785152.   (* 510.0 *)
+Proof.
+  vm_compute. repeat split; try congruence; try lia; repeat constructor; vm_compute; congruence.
+Qed.
+
+(* D11: the same two frames on an accumulator that is NOT cleared (ring memory 0x3f3f3f3f = 0.7470588):
+   15.37353 instead of 15.0.  This is what filter.c computed before fix 01; corpus/C10/d11_dirty_accumulator.txt *)
+Example D11_dirty_accumulator :
+  f32_bits (mean_pixel (f32_of_bits 1061109567) [10; 20]) = 1098250746 /\    (* 0x4175f9fa *)
+  f32_bits (mean_pixel f32_zero [10; 20]) = 1097859072.                      (* 0x41700000 = 15.0 *)
+Proof. vm_compute. split; reflexivity. Qed.
+
+(* "within 1 ulp of S/k" is false: k = 7, S = 3 gives 14380472 * 2^-25, 3/7 = 14380470.857.. * 2^-25, ulp = 2^-25 *)
+Example one_ulp_bound_refuted :
+  let out := mean_pixel f32_zero [3; 0; 0; 0; 0; 0; 0] in
+  (Rabs (B2R 24 128 out - 3 / 7) > ulp radix2 (FLT_exp (-149) 24) (3 / 7))%R.
+Proof.
+  intros out.
+  rewrite <- (FF2R_B2FF 24 128 out).
+  replace (B2FF 24 128 out) with (F754_finite false 14380472 (-25)) by (vm_compute; reflexivity).
+  rewrite ulp_neq_0 by lra.
+  unfold cexp. rewrite (mag_unique radix2 (3 / 7) (-1)).
+  - unfold FLT_exp. unfold FF2R, F2R. simpl Fnum. simpl Fexp. simpl cond_Zopp.
+    change (bpow radix2 (-25)) with (/ 33554432)%R.
+    change (Z.max (-1 - 24) (-149)) with (-25). change (bpow radix2 (-25)) with (/ 33554432)%R.
+    rewrite Rabs_pos_eq; lra.
+  - simpl Z.sub. change (bpow radix2 (-2)) with (/ 4)%R. change (bpow radix2 (-1)) with (/ 2)%R.
+    rewrite Rabs_pos_eq; lra.
+Qed.
